@@ -343,7 +343,10 @@ func keysOf(m map[string]bool) []string {
 	return out
 }
 
-// c02Read checks the line/col/offset accounting shape of read().
+// c02Read checks the line/col/offset accounting of read() on its normalised paths: the position advances by the
+// width of the previous rune, the rune decoded there and its width are stored, the column counts runes and restarts
+// after a newline (which increments the line), nothing else is written to the position, and the invalid-encoding
+// error is recorded exactly for a one-byte RuneError when invalid UTF-8 is not allowed.
 func c02Read(c *Ctx, v *variants.Variant, rule string) {
 	r := c.R
 	fd := v.Func("parser", "read")
@@ -351,74 +354,57 @@ func c02Read(c *Ctx, v *variants.Variant, rule string) {
 		r.Fatal("variant %s: read missing", v.Name)
 		return
 	}
-	var seq []string
-	rnVar, nVar := "", ""
-	for _, st := range fd.Body.List {
-		switch x := st.(type) {
-		case *ast.AssignStmt:
-			l, rr := nospace(x.Lhs[0]), nospace(x.Rhs[0])
-			switch {
-			case l == "p.pt.offset" && x.Tok.String() == "+=" && rr == "p.pt.w":
-				seq = append(seq, "advance")
-			case rr == "utf8.DecodeRune(p.data[p.pt.offset:])" && len(x.Lhs) == 2:
-				rnVar, nVar = nospace(x.Lhs[0]), nospace(x.Lhs[1])
-				seq = append(seq, "decode")
-			case l == "p.pt.rn" && rr == rnVar:
-				seq = append(seq, "rn")
-			case l == "p.pt.w" && rr == nVar:
-				seq = append(seq, "w")
-			default:
-				seq = append(seq, "other:"+l+"="+rr)
-			}
-		case *ast.IncDecStmt:
-			if nospace(x.X) == "p.pt.col" && x.Tok.String() == "++" {
-				seq = append(seq, "col++")
-			} else {
-				seq = append(seq, "other:"+nospace(x.X)+x.Tok.String())
-			}
-		case *ast.IfStmt:
-			cond := nospace(x.Cond)
-			if cond == rnVar+"=='\\n'" {
-				var in []string
-				for _, s := range x.Body.List {
-					switch y := s.(type) {
-					case *ast.IncDecStmt:
-						in = append(in, nospace(y.X)+y.Tok.String())
-					case *ast.AssignStmt:
-						in = append(in, nospace(y.Lhs[0])+"="+nospace(y.Rhs[0]))
-					}
-				}
-				if strings.Join(in, ";") == "p.pt.line++;p.pt.col=0" {
-					seq = append(seq, "newline")
-				} else {
-					seq = append(seq, "newline?:"+strings.Join(in, ";"))
-				}
-			} else {
-				seq = append(seq, "if:"+cond)
+	paths := c.vnorm(v).without("addErr", "addErrAt").normPaths(fd)
+	var bad []string
+	const dec = "utf8.DecodeRune(p.data[p.pt.offset:])"
+	for _, p := range paths {
+		iAdv := p.evIndex("set", 0, func(s string) bool { return s == "p.pt.offset+=p.pt.w" })
+		iDec := p.evIndex("call", 0, func(s string) bool { return s == dec })
+		if iAdv < 0 || iDec < 0 || iAdv > iDec {
+			bad = append(bad, "the offset is not advanced by the previous width before the next rune is decoded at it")
+			continue
+		}
+		sets := map[string]int{}
+		for i, e := range p {
+			if e.Kind == "set" && strings.HasPrefix(e.Text, "p.pt.") {
+				sets[e.Text] = i
 			}
 		}
-	}
-	got := strings.Join(seq, ",")
-	// the order of rn / w / col++ is irrelevant; advance must precede decode, newline must follow col++
-	norm := func(s []string) string {
-		head, mid, tail := []string{}, []string{}, []string{}
-		for _, x := range s {
-			switch {
-			case x == "advance" || x == "decode":
-				head = append(head, x)
-			case x == "rn" || x == "w" || x == "col++":
-				mid = append(mid, x)
-			default:
-				tail = append(tail, x)
+		need := []string{"p.pt.rn=res0(" + dec + ")", "p.pt.w=res1(" + dec + ")", "p.pt.col++"}
+		newline := p.holds("res0(" + dec + ")=='\\n'")
+		if newline {
+			need = append(need, "p.pt.line++", "p.pt.col=0")
+		}
+		for _, n := range need {
+			if _, ok := sets[n]; !ok {
+				bad = append(bad, "missing `"+n+"` on the path ["+strings.Join(p.facts(), " ")+"]")
 			}
 		}
-		sort.Strings(mid)
-		return strings.Join(head, ",") + "|" + strings.Join(mid, ",") + "|" + strings.Join(tail, ",")
+		if newline && sets["p.pt.col=0"] < sets["p.pt.col++"] {
+			bad = append(bad, "the column is reset before it is incremented")
+		}
+		for s := range sets {
+			okS := s == "p.pt.offset+=p.pt.w"
+			for _, n := range need {
+				if s == n {
+					okS = true
+				}
+			}
+			if !okS {
+				bad = append(bad, "unexpected position update `"+s+"` on the path ["+strings.Join(p.facts(), " ")+"]")
+			}
+		}
+		invalid := p.holds("res0("+dec+")==utf8.RuneError") && p.holds("res1("+dec+")==1") && p.holds("!p.allowInvalidUTF8")
+		reported := p.hasCall("p.addErr(errInvalidEncoding)")
+		if invalid != reported {
+			bad = append(bad, fmt.Sprintf("invalid-encoding error recorded=%t on the path [%s] (expected exactly for RuneError of width 1 without AllowInvalidUTF8)", reported, strings.Join(p.facts(), " ")))
+		}
 	}
-	want1 := "advance,decode|col++,rn,w|newline,if:" + rnVar + "==utf8.RuneError&&" + nVar + "==1"
-	colBeforeNewline := strings.Index(got, "col++") >= 0 && strings.Index(got, "col++") < strings.Index(got, "newline")
-	r.Check(norm(seq) == want1 && colBeforeNewline, rule, "T.read:accounting", v.Name, v.Where(fd.Pos()),
-		"offset += w; decode at offset; store rune and width; col++; newline => line++, col = 0; then the invalid-encoding test", "statement shape is ["+got+"]")
+	if len(paths) == 0 {
+		bad = append(bad, "no paths")
+	}
+	r.Check(len(bad) == 0, rule, "T.read:accounting", v.Name, v.Where(fd.Pos()),
+		"offset += w; decode at offset; store rune and width; col++; newline => line++, col = 0; then the invalid-encoding test", strings.Join(uniq(bad), "; "))
 }
 
 // c02BuilderScopes computes, per ast kind, the scope depth at which writeExprCode visits each child,
@@ -603,23 +589,9 @@ func c02dRuntime(c *Ctx, a *absVariant, gDepth map[string]map[string]int) {
 	}
 	// a new scope starts empty: pushV installs a fresh map or reuses one proven empty; popV shortens by one
 	if pv, pp := a.V.Func("parser", "pushV"), a.V.Func("parser", "popV"); pv != nil && pp != nil {
-		why := freshTopSlot(pv, "vstack")
-		grow := false
-		ast.Inspect(pv.Body, func(n ast.Node) bool {
-			if as, ok := n.(*ast.AssignStmt); ok && nospace(as.Lhs[0]) == "p.vstack" {
-				if rr := nospace(as.Rhs[0]); rr == "append(p.vstack,nil)" || rr == "p.vstack[:len(p.vstack)+1]" {
-					grow = true
-				}
-			}
-			return true
-		})
-		shrink := false
-		ast.Inspect(pp.Body, func(n ast.Node) bool {
-			if as, ok := n.(*ast.AssignStmt); ok && nospace(as.Lhs[0]) == "p.vstack" && nospace(as.Rhs[0]) == "p.vstack[:len(p.vstack)-1]" && len(guardsOf(pp.Body, as.Pos())) == 0 {
-				shrink = true
-			}
-			return true
-		})
+		sem := pushSemantics(c.vnorm(a.V).normPaths(pv), "vstack")
+		why, grow := sem.FreshTop, sem.Grow
+		shrink := popShortensByOne(c.vnorm(a.V).normPaths(pp), "vstack")
 		r.Check(why == "" && grow && shrink, "C02-d", "T.pushV/popV:new-scope-is-empty", vn, a.V.Where(pv.Pos()), "push grows by one and leaves an empty map on top (fresh, or reused only when proven empty); pop shortens by one",
 			fmt.Sprintf("grow=%t shrink=%t %s: labels of an earlier scope would be visible in a later one", grow, shrink, why))
 	} else {
